@@ -60,7 +60,8 @@ func randIncludeCase(rng *rand.Rand, seed int64) dCase {
 		c.Var.Impl = "wrap"
 	}
 	for k := 1 + rng.Intn(5); k > 0; k-- {
-		c.Calls = append(c.Calls, [2]string{[]string{"t1", "t2"}[rng.Intn(2)], []string{"x", "y", "u"}[rng.Intn(3)]})
+		// (the fourth id is the empty one: a resource that was never given an id is a resource too)
+		c.Calls = append(c.Calls, [2]string{[]string{"t1", "t2"}[rng.Intn(2)], []string{"x", "y", "u", ""}[rng.Intn(4)]})
 	}
 	if rng.Intn(3) == 0 && d.Kind != "null" {
 		// a document that came over the wire with inclusions of its own: Include is called on what
